@@ -25,7 +25,10 @@ CLAIM = dict(
           "other workers' requests are untouched and the pool is topped up; every request is accepted once, answered at most once "
           "and only by its acceptor, each worker serves one request at a time; exit notices follow registrations. The pinned code "
           "is refuted by an explicit trace (C20_overshoot_refuted: init 1, max 4, six live workers) that is replayed on the real loop. "
-          "PARTIAL: the model is tied to the real master loop by trace validation on every run; OS facts are assumptions."),
+          "PARTIAL: the model is tied to the real master loop (StartMaster, maintainChildState, readNamedPipe) by trace validation on "
+          "every run, and four real-process scenarios (burst, timeout of the last worker, timeout beside a request in flight, "
+          "SIGKILL) check max/init, one-answer-per-request, no overlapping requests per worker and master survival at OS level; "
+          "the remaining OS facts are assumptions."),
     note=TB + ("ASSUMPTIONS (not exercised): which process accept()s a connection and that a connection is delivered to exactly one "
                "accept; signal delivery; cmd.Start never fails; a process is reported on delChan only after its registration was "
                "received (spawnProcess :210-220, by reading); pipe frames are written atomically and read in order; real time "
@@ -294,7 +297,7 @@ def load_corpus():
     return []
 
 
-def run_harness_parallel(scripts, jobs=6, chunk=25):
+def run_harness_parallel(scripts, jobs=10, chunk=20):
     chunks = [scripts[i:i + chunk] for i in range(0, len(scripts), chunk)]
     outs = []
     with ThreadPoolExecutor(max_workers=jobs) as ex:
@@ -311,7 +314,15 @@ def sorted_childs(flat):
 def run(chk, replay=None):
     rng = chk.rng
     quick = chk.tier == "quick"
-    N = 260 if quick else 3000
+    N = 220 if quick else 2000
+    if replay is not None and replay.get("kind") == "real":
+        global REAL
+        REAL = [replay["scenario"]]
+        run_real(chk)
+        cleanup_fifos(chk.t0)
+        return
+    real_pool = ThreadPoolExecutor(max_workers=1)
+    real_future = real_pool.submit(run_real, chk) if replay is None else None
     cases = []
     for c in load_corpus():
         c = dict(c)
@@ -421,6 +432,9 @@ def run(chk, replay=None):
             chk.violation("the master's pool bookkeeping departs from the proved model: " + problems[0][:400],
                           sig, {"kind": "trace", "case": strip(c), "observed": o, "problems": problems,
                                 "model": cobs[:nvalid + 1], "replay_cmd": "./check C20 --replay <this file>"})
+    if real_future is not None:
+        real_future.result()
+    cleanup_fifos(chk.t0)
     chk.assumptions = [
         "OS: a connection is delivered to exactly one accept(); which worker accepts is arbitrary",
         "OS: a process exit is reported on delChan only after spawnProcess sent its registration (pm_server.go:210-220, by reading)",
@@ -432,6 +446,90 @@ def run(chk, replay=None):
                             "frames; half of the traces driven to quiescence), configurations init<=max<=8 and max in {11..30} for the "
                             "+10 branch; every trace evaluated in Coq and replayed on the real loop; distinct = distinct (config, trace); "
                             "non-trivial = at least one master event")
+
+
+# ------------------------------------------------------------------ real processes (OS-level smoke scenarios)
+REAL = [
+    {"name": "burst", "init": 2, "max": 3, "timeout": 3,
+     "ops": [{"op": "req", "sleep": 300, "n": 7}, {"op": "join"}, {"op": "settle", "ms": 8000}],
+     "all_ok": True},
+    {"name": "timeout-last-worker", "init": 1, "max": 1, "timeout": 1,
+     "ops": [{"op": "req", "sleep": 3000, "n": 1}, {"op": "join"}, {"op": "settle", "ms": 8000},
+             {"op": "req", "sleep": 10, "n": 1}, {"op": "join"}],
+     "ok_tokens": ["t2"], "lost_tokens": ["t1"]},
+    {"name": "timeout-others-undisturbed", "init": 2, "max": 2, "timeout": 1,
+     "ops": [{"op": "req", "sleep": 4000, "n": 1}, {"op": "wait", "ms": 700}, {"op": "req", "sleep": 450, "n": 1},
+             {"op": "join"}, {"op": "settle", "ms": 8000}, {"op": "req", "sleep": 10, "n": 2}, {"op": "join"}],
+     "ok_tokens": ["t2", "t3", "t4"], "lost_tokens": ["t1"]},
+    {"name": "crash-replaced", "init": 2, "max": 3, "timeout": 5,
+     "ops": [{"op": "kill"}, {"op": "wait", "ms": 300}, {"op": "settle", "ms": 8000}, {"op": "req", "sleep": 10, "n": 2}, {"op": "join"}],
+     "all_ok": True},
+]
+
+
+def run_real(chk):
+    scen = [dict(s, timeout_ms=90000) for s in REAL]
+    with ThreadPoolExecutor(max_workers=len(scen)) as ex:
+        outs = list(ex.map(lambda sc: core.harness(HARNESS, "real", [{k: v for k, v in sc.items() if k in ("init", "max", "timeout", "ops", "timeout_ms")}],
+                                                   timeout_ms=90000, batch_timeout=200)[0], scen))
+    for sc, o in zip(scen, outs):
+        chk.count(["real", sc["name"]])
+        chk.dist("real:" + sc["name"])
+        bad = []
+        if "fatal" in o or "crash" in o or "hang" in o or "panic" in o:
+            chk.violation("real-process scenario could not run: %s" % json.dumps(o)[:200], "real:harness",
+                          {"kind": "real", "scenario": sc, "observed": o}, no_input=True)
+            continue
+        if o.get("max_seen", 0) > sc["max"]:
+            bad.append(("real:live>max", "%d live worker processes observed with --max-procs %d" % (o["max_seen"], sc["max"])))
+        if not o.get("master_alive") or any(not st.get("master_alive") for st in o.get("steps", [])):
+            bad.append(("real:master-died", "the master process died (%s)" % o.get("master_stderr", "").split("|")[-1].strip()[20:]))
+        for st in o.get("steps", []):
+            if st.get("settled", 0) < sc["init"]:
+                bad.append(("real:not-replaced", "only %d live workers after the system went quiet, --init-procs %d" % (st.get("settled", 0), sc["init"])))
+        by_tok = {}
+        for r in o.get("resps", []):
+            by_tok.setdefault(r["token"], []).append(r)
+        spans = {}
+        for t, rs in by_tok.items():
+            r = rs[0]
+            want_ok = sc.get("all_ok") or t in sc.get("ok_tokens", [])
+            if len(rs) != 1:
+                bad.append(("real:request-duplicated", "request %s has %d outcomes" % (t, len(rs))))
+            if want_ok and not (r["status"] == 200 and ("token=%s " % t) in r["body"]):
+                bad.append(("real:request-lost", "request %s was not answered by a worker (%s)" % (t, json.dumps(r)[:100])))
+            if t in sc.get("lost_tokens", []) and r["status"] == 200:
+                bad.append(("real:timeout-not-enforced", "request %s outlived --timeout and was still answered" % t))
+            if r["status"] == 200:
+                f = dict(x.split("=") for x in r["body"].split())
+                spans.setdefault(f["pid"], []).append((int(f["start"]), int(f["end"]), t))
+        for pid, sp in spans.items():
+            sp.sort()
+            for a, b in zip(sp, sp[1:]):
+                if b[0] < a[1]:
+                    bad.append(("real:worker-overlap", "worker %s served %s and %s at the same time" % (pid, a[2], b[2])))
+        seen = set()
+        for sig, what in bad:
+            if sig in seen:
+                continue
+            seen.add(sig)
+            stable = {"master_alive": o.get("master_alive"), "max_seen": o.get("max_seen"), "steps": o.get("steps"),
+                      "final_children": o.get("final_children"),
+                      "responses": sorted([r["token"], r["status"]] for r in o.get("resps", [])),
+                      "master_last_line": o.get("master_stderr", "").split("|")[-1].strip()[20:]}
+            chk.violation("real processes, scenario %s (init %d, max %d, timeout %ds): %s" % (sc["name"], sc["init"], sc["max"], sc["timeout"], what),
+                          sig, {"kind": "real", "scenario": {k: v for k, v in sc.items() if k != "timeout_ms"}, "observed": stable, "violated": sig,
+                                "replay_cmd": "./check C20 --replay <this file>"})
+
+
+def cleanup_fifos(t0):
+    import glob
+    for f in glob.glob("/tmp/zinc-server-pipe-*"):
+        try:
+            if os.path.getmtime(f) >= t0 - 1:
+                os.remove(f)
+        except OSError:
+            pass
 
 
 def strip(c):
